@@ -39,6 +39,9 @@ type Scenario struct {
 	// Keytab: the client keytab holds several entries (the user's and a newer one of a sibling principal), in file
 	// order oldest first
 	Keytab bool `json:"keytab_with_several_entries,omitempty"`
+	// PreAuthSecond: pre-authentication required, the client lists two etypes and the KDC holds a key for the second
+	// only, so its hint names an etype that is not the first of the configured list
+	PreAuthSecond bool `json:"preauth_with_second_etype,omitempty"`
 }
 
 func scenarios(thorough bool) []Scenario {
@@ -60,6 +63,9 @@ func scenarios(thorough bool) []Scenario {
 		{Name: "cached-ticket-vs-new-ticket", NKDC: 1, Prelude: []string{"login", "tA"}, Threads: [][]string{{"tA"}, {"tB"}}},
 		{Name: "two-requests-for-an-expired-renewable-ticket", NKDC: 1, Renew: true, Prelude: []string{"login", "tA", "advTimer", "advTicketEnd"}, Threads: [][]string{{"tA"}, {"tA"}}},
 		{Name: "login-vs-login-keytab-with-several-entries", NKDC: 1, Keytab: true, Threads: [][]string{{"login"}, {"login"}}},
+		{Name: "login-vs-login-preauth-with-the-second-etype", NKDC: 1, PreAuthSecond: true, Threads: [][]string{{"login"}, {"login"}}},
+		{Name: "two-requests-for-an-expired-ticket", NKDC: 1, Prelude: []string{"login", "tA", "advTicketEnd"}, Threads: [][]string{{"tA"}, {"tA"}}},
+		{Name: "expired-ticket-vs-other-ticket", NKDC: 1, Prelude: []string{"login", "tA", "tB", "advTicketEnd"}, Threads: [][]string{{"tA"}, {"tB", "print"}}},
 		{Name: "getkdcs-2-kdcs", NKDC: 2, Threads: [][]string{{"getkdcs"}, {"getkdcs"}}},
 		{Name: "getkdcs-3-kdcs", NKDC: 3, Threads: [][]string{{"getkdcs"}, {"getkdcs"}}},
 		{Name: "getkdcs-vs-ticket-2-kdcs", NKDC: 2, Prelude: []string{"login"}, Threads: [][]string{{"getkdcs", "getkpasswd"}, {"tA"}}},
@@ -108,6 +114,9 @@ func optsFor(sc Scenario) cworld.Opts {
 	}
 	if sc.Keytab {
 		o.UserInstance = "client.test.gokrb5"
+	}
+	if sc.PreAuthSecond {
+		o.PreAuth, o.ETypes, o.KDCKeyETypes = "required", []int32{17, 18}, []int32{18}
 	}
 	return o
 }
